@@ -90,6 +90,24 @@ pub fn from_dims_values<S: Source>(s: &mut S, rank: usize, max: usize, len: usiz
     }
 }
 
+/// the zeros constructor (dimensions alone) refuses a zero dimension
+pub fn zeros_zero_dim<S: Source>(s: &mut S, rank: usize) {
+    let mut dims = Vec::with_capacity(rank);
+    let mut any_zero = false;
+    for _ in 0..rank {
+        let d = s.size(4);
+        any_zero |= d == 0;
+        dims.push(d);
+    }
+    #[cfg(kani)]
+    kani::assume(any_zero);
+    #[cfg(not(kani))]
+    assert!(any_zero, "[replay] recorded values violate the assumption");
+    let a = Array::from(dims);
+    forget(a);
+    chk!(false, "[c16:refusal-missing] a zero dimension was accepted by the zeros constructor");
+}
+
 /// flat vector constructor and nested construction (`arr!`, depth 1..3) give the nested
 /// dimensions and row-major values
 pub fn nested<S: Source>(s: &mut S, depth: usize) {
